@@ -60,11 +60,85 @@ def run(ctx):
     _first_seen_wins(ctx, ctx.prog.func(AC))
     _calibration_outside_chunk_loop(ctx)
     _chunk_constants(ctx)
+    worker_count_only_forwarded(ctx, "C05b-worker-count-only-forwarded")
     _parquet_index(ctx)
     from .c14 import _row_iterator
     for q in ("mokapot.utils.csv_row_iterator",
               "mokapot.utils.parquet_row_iterator"):
         _row_iterator(ctx, ctx.prog.func(q))
+
+
+WORKER_PARAMS = ("max_workers", "n_jobs", "num_workers", "workers")
+
+
+def worker_count_only_forwarded(ctx, rule):
+    """The number of workers may decide how much runs at the same time and
+    nothing else: every use of a worker-count parameter is a forwarding use
+    (bound to a worker-count parameter of the callee - Parallel(n_jobs=...),
+    a repository function's max_workers - or stored in an attribute of that
+    name).  A comparison, an arithmetic use or any other argument position
+    makes a value (a chunk size, a code path) depend on the worker count."""
+    prog = ctx.prog
+    n_uses = 0
+    for q in sorted(prog.funcs):
+        f = prog.funcs[q]
+        if isinstance(f.node, ast.Lambda):
+            continue
+        mine = [p_ for p_ in f.params if p_ in WORKER_PARAMS]
+        if not mine:
+            continue
+        parents = {}
+        for n in ast.walk(f.node):
+            for ch in ast.iter_child_nodes(n):
+                parents[id(ch)] = n
+        du = None
+        for n in walk_own(f.node):
+            if not (isinstance(n, ast.Name) and n.id in mine
+                    and isinstance(n.ctx, ast.Load)):
+                continue
+            if du is None:
+                du = DefUse(prog, f)
+            if not any(d.kind == "param" for d in du.defs_of(n)):
+                continue        # re-bound local of that name
+            n_uses += 1
+            par = parents.get(id(n))
+            ok = False
+            if isinstance(par, ast.keyword) and par.arg in WORKER_PARAMS:
+                ok = True
+            elif isinstance(par, ast.keyword) or (
+                    isinstance(par, ast.Call) and n in par.args):
+                call = par if isinstance(par, ast.Call) else parents.get(
+                    id(par))
+                tgt = call
+                # delayed(f)(.., max_workers) forwards to f
+                _k, tg = prog.resolve_call(f, f.module, tgt)
+                for q2 in tg or ():
+                    g = prog.funcs.get(q2) or prog.funcs.get(
+                        q2 + ".__init__")
+                    if g is None:
+                        continue
+                    b = prog.bind(g, tgt)
+                    if any(v is n and k in WORKER_PARAMS
+                           for k, v in b.items()):
+                        ok = True
+            elif isinstance(par, ast.Assign) and par.value is n and all(
+                    isinstance(t, ast.Attribute) and t.attr in WORKER_PARAMS
+                    for t in par.targets):
+                ok = True
+            elif isinstance(par, ast.Expr):
+                ok = True       # a bare mention (documentation stub)
+            elif isinstance(par, ast.Call) and callee_is(
+                    prog, f, par, "LOGGER.info", "LOGGER.debug",
+                    "logging.info", "logging.debug"):
+                ok = True
+            ctx.check(ok, rule, f,
+                      f"'{n.id}' (line {n.lineno}) is only handed on as a "
+                      "worker count",
+                      f"'{n.id}' is used in '{ast.unparse(par)[:70]}': a "
+                      "value or a branch depends on the number of workers, "
+                      "so results can differ between worker counts",
+                      node=n)
+    ctx.floor(rule + "-uses", n_uses, 4)
 
 
 # ------------------------------------------------------------------ PAR
@@ -665,12 +739,20 @@ def _parquet_index(ctx):
     du = DefUse(prog, f)
     T = Terms(du, phi_vars=True)
     p_cs = f.params[1]
-    sets = [n for n in ast.walk(f.node) if isinstance(n, ast.Assign)
-            and isinstance(n.targets[0], ast.Attribute)
-            and n.targets[0].attr == "index"]
+    sets = [n for n in ast.walk(f.node) if (
+        isinstance(n, ast.Assign) and isinstance(
+            n.targets[0], ast.Attribute) and n.targets[0].attr == "index")
+        or (isinstance(n, ast.AugAssign) and isinstance(
+            n.target, ast.Attribute) and n.target.attr == "index"
+            and isinstance(n.op, ast.Add))]
     ctx.require(len(sets) == 1, f"{f.qual}: index re-basing not found; "
                 "idiom not recognised")
-    v = T.of(sets[0].value)
+    if isinstance(sets[0], ast.AugAssign):
+        # x.index += k  is  x.index = x.index + k  (an Index is immutable)
+        v = ("bin", "+", ("attr", T.of(sets[0].target.value), "index"),
+             T.of(sets[0].value))
+    else:
+        v = T.of(sets[0].value)
     ok = False
     why = show(v, 160)
     if v[0] == "bin" and v[1] == "+":
